@@ -24,14 +24,34 @@ def _constraints():
     return {'U': None, 'DW': conv_dw_constraint, 'K3': conv_3_constraint, 'USR': user_constraint}
 
 
-def _spec_for(match):
+# concrete layer descriptions per intended match set; what "matches" means is decided here,
+# independently of the library's own constraint functions (documented meaning: depthwise =
+# in_channels == out_channels == groups; 3x3 = every kernel dimension equals 3)
+DW_YES = [(8, 8, 8), (4, 4, 4)]
+DW_NO = [(8, 16, 1), (8, 8, 1), (8, 16, 8), (16, 8, 8)]
+K3_YES = [(3, 3)]
+K3_NO = [(5, 5), (3, 5), (1, 3), (3, 1), (1, 1)]
+
+
+def _spec_for(match, variant=0):
     """A layer description that satisfies exactly the constraints in `match`."""
-    dw = 'DW' in match
-    return {'in_channels': 8, 'out_channels': 8 if dw else 16, 'groups': 8 if dw else 1,
-            'kernel_size': (3, 3) if 'K3' in match else (5, 5), 'user_flag': 'USR' in match}
+    cin, cout, g = (DW_YES if 'DW' in match else DW_NO)[variant % (len(DW_YES) if 'DW' in match else len(DW_NO))]
+    ks = (K3_YES if 'K3' in match else K3_NO)[variant % (len(K3_YES) if 'K3' in match else len(K3_NO))]
+    return {'in_channels': cin, 'out_channels': cout, 'groups': g, 'kernel_size': ks, 'user_flag': 'USR' in match}
 
 
-def _real_lookup(order, match, default, other_type_entries=0):
+def _own_match(spec):
+    m = []
+    if spec['in_channels'] == spec['groups'] and spec['out_channels'] == spec['groups']:
+        m.append('DW')
+    if all(k == 3 for k in spec['kernel_size']):
+        m.append('K3')
+    if spec['user_flag']:
+        m.append('USR')
+    return m
+
+
+def _real_lookup(order, match, default, other_type_entries=0, variant=0):
     """Register patterns in `order` on a real CostSpec and look a layer up."""
     import torch.nn as nn
     from plinio.cost import CostSpec
@@ -46,7 +66,9 @@ def _real_lookup(order, match, default, other_type_entries=0):
         for j in range(other_type_entries):   # another layer type, interleaved
             cs[(nn.Linear, cons['USR'] if j % 2 else None)] = (lambda spec: -1)
     try:
-        f = cs[(nn.Conv2d, _spec_for(match))]
+        spec = _spec_for(match, variant)
+        assert _own_match(spec) == [t for t in TAGS[1:] if t in match], (spec, match)
+        f = cs[(nn.Conv2d, spec)]
     except KeyError:
         return 'conflict'
     if id(f) in fns:
@@ -173,9 +195,9 @@ def run(chk):
     model = chk.driver('C15', lines)
     idx = 0
     by_multiset = {}
-    for (order, match, default) in cases:
-        real = _real_lookup(order, match, default)
-        chk.corr({'order': order, 'match': match, 'default': default}, real, model[idx])
+    for ci, (order, match, default) in enumerate(cases):
+        real = _real_lookup(order, match, default, variant=ci)
+        chk.corr({'order': order, 'match': match, 'default': default, 'layer': _spec_for(match, ci)}, real, model[idx])
         idx += 1
         nontriv = len(order) >= 2
         chk.count((tuple(order), tuple(match), default), nontrivial=nontriv,
@@ -188,7 +210,7 @@ def run(chk):
             chk.violation('C15:lookup-differs-from-documented-rule',
                           'CostSpec look-up returns %s where the documented rule gives %s' % (real, want),
                           {'kind': 'lookup', 'order': order, 'match': match, 'default': default,
-                           'impl': real, 'rule': want})
+                           'impl': real, 'rule': want, 'variant': ci, 'layer': _spec_for(match, ci)})
         key = (tuple(sorted(order)), tuple(match), default)
         ans = real if not real.startswith('ok:') else 'ok:' + order[int(real[3:])]
         by_multiset.setdefault(key, {}).setdefault(ans, order)
@@ -217,7 +239,7 @@ def run(chk):
 def replay(data):
     case = data['case']
     if case.get('kind') == 'lookup':
-        real = _real_lookup(case['order'], case['match'], case['default'])
+        real = _real_lookup(case['order'], case['match'], case['default'], variant=case.get('variant', 0))
         want = _rule(case['order'], case['match'])
         print('impl=%s rule=%s' % (real, want))
         return 0 if real == want else 1
